@@ -83,6 +83,7 @@ func c06RunChain(batches [][]*clientpb.Command, idx []int, jump bool) string {
 	}
 	cc := clientpb.NewCommandCache(1)
 	cio := server.NewClientIO(el, lg, cc)
+	cio.Stop() // never served; unregisters the gRPC server from the process-global channelz table (see node.New)
 	ruler := &scriptRuler{}
 	cm := consensus.NewCommitter(el, lg, chain, vs, ruler)
 	parent := hotstuff.GetGenesis()
